@@ -35,19 +35,34 @@ type CoffCase struct {
 	Externs  []string    `json:"externs"`
 	Labels   []CoffLabel `json:"labels"`
 	Stmts    []string    `json:"stmts"`
+	// EndLabels: labels after the last byte of the program (no marker follows them: their offset is the size of .text)
+	EndLabels []string `json:"endlabels,omitempty"`
+	// Order of the header directives: 0 FORMAT INSTRSET BITS FILE (the usual one), 1 FILE FORMAT INSTRSET BITS,
+	// 2 FORMAT FILE INSTRSET BITS, 3 INSTRSET FORMAT BITS FILE
+	Order int `json:"order,omitempty"`
 }
 
 func (c *CoffCase) source(format bool) string {
 	var sb strings.Builder
+	fm, is, bits, file := "", "", "[BITS 32]\n", ""
 	if format {
-		sb.WriteString("[FORMAT \"WCOFF\"]\n")
+		fm = "[FORMAT \"WCOFF\"]\n"
 	}
 	if c.Instrset {
-		sb.WriteString("[INSTRSET \"i486p\"]\n")
+		is = "[INSTRSET \"i486p\"]\n"
 	}
-	sb.WriteString("[BITS 32]\n")
 	if c.HasFile {
-		fmt.Fprintf(&sb, "[FILE \"%s\"]\n", c.File)
+		file = fmt.Sprintf("[FILE \"%s\"]\n", c.File)
+	}
+	switch c.Order {
+	case 1:
+		sb.WriteString(file + fm + is + bits)
+	case 2:
+		sb.WriteString(fm + file + is + bits)
+	case 3:
+		sb.WriteString(is + fm + bits + file)
+	default:
+		sb.WriteString(fm + is + bits + file)
 	}
 	for _, g := range c.Before {
 		fmt.Fprintf(&sb, "\tGLOBAL\t%s\n", strings.Join(g, ", "))
@@ -67,6 +82,9 @@ func (c *CoffCase) source(format bool) string {
 		if i < len(c.Stmts) {
 			fmt.Fprintf(&sb, "\t%s\n", c.Stmts[i])
 		}
+	}
+	for _, l := range c.EndLabels {
+		fmt.Fprintf(&sb, "%s:\n", l)
 	}
 	for _, g := range c.After {
 		fmt.Fprintf(&sb, "\tGLOBAL\t%s\n", strings.Join(g, ", "))
@@ -102,7 +120,7 @@ func assembleCoff(c *CoffCase) (obj, flat []byte, skip string) {
 	}
 	// baseline: directives only (they print content-free warnings); GLOBAL of an undefined name warns by design
 	bc := *c
-	bc.Stmts, bc.Labels, bc.Before, bc.After, bc.Externs = nil, nil, nil, nil, nil
+	bc.Stmts, bc.Labels, bc.Before, bc.After, bc.Externs, bc.EndLabels = nil, nil, nil, nil, nil, nil
 	base := asm.Baseline(bc.source(true))
 	var extra []string
 	for _, d := range asm.ExtraDiags(r, base) {
@@ -284,6 +302,9 @@ func checkC09(c CoffCase) Verdict {
 		}
 		addr[l.Name] = uint32(bytes.Index(flat, mb))
 	}
+	for _, l := range c.EndLabels {
+		addr[l] = uint32(len(flat))
+	}
 	// .file first, with the FILE name in its auxiliary record
 	if len(f.Symbols) < 4 || f.Symbols[0].Name != ".file" || f.Symbols[0].StorageClass != 103 || len(f.Symbols[0].Aux) != 1 {
 		return fail("file", "first symbol is not a .file record with one auxiliary record")
@@ -447,6 +468,13 @@ func genCoffCase(t *rapid.T) CoffCase {
 		names = append(names, nm)
 		c.Labels = append(c.Labels, CoffLabel{Name: nm, Pos: rapid.IntRange(0, ns).Draw(t, fmt.Sprintf("lp%d", i)), Ser: i + 1})
 	}
+	// labels at the very end of the program (their value is the size of .text)
+	for i := rapid.SampledFrom([]int{0, 0, 1, 1, 2}).Draw(t, "nend"); i > 0; i-- {
+		nm := genCoffName(t, fmt.Sprintf("end%d", i), used, names)
+		names = append(names, nm)
+		c.EndLabels = append(c.EndLabels, nm)
+	}
+	c.Order = rapid.SampledFrom([]int{0, 0, 0, 1, 2, 3}).Draw(t, "hdrorder")
 	// GLOBAL declarations: a random sub-multiset of the labels in random order, plus undefined names
 	pool := append([]string{}, names...)
 	nu := rapid.IntRange(0, 2).Draw(t, "nundef")
@@ -485,7 +513,7 @@ func genCoffCase(t *rapid.T) CoffCase {
 
 var propC08 = &Prop[CoffCase]{
 	ID:     "C08",
-	Rule:   "32-bit WCOFF programs (0..12 statements incl. occasional 1k/40k/66k reservations) x 0..45 labels x GLOBAL statements declaring any sub-multiset of them (duplicates, undefined names, names of length 1..40 incl. exactly 8/9 and 18/19, shared prefixes) before and after the code x EXTERN x [FILE] of length 0..40 or absent; oracle: strict COFF reader (every offset/count against the file size, aux records counted, string-table length, NUL-terminated long names) + debug/pe + (thorough, sampled) objdump; non-trivial = >= 1 GLOBAL and (a long name or non-empty .text); distinct by source text",
+	Rule:   "32-bit WCOFF programs (0..12 statements incl. occasional 1k/40k/66k reservations) x 0..45 labels (some of them after the last byte of the program) x four orders of the header directives x GLOBAL statements declaring any sub-multiset of them (duplicates, undefined names, names of length 1..40 incl. exactly 8/9 and 18/19, shared prefixes) before and after the code x EXTERN x [FILE] of length 0..40 or absent; oracle: strict COFF reader (every offset/count against the file size, aux records counted, string-table length, NUL-terminated long names) + debug/pe + (thorough, sampled) objdump; non-trivial = >= 1 GLOBAL and (a long name or non-empty .text); distinct by source text",
 	Assume: []string{"debug/pe and binutils objdump as independent COFF readers"},
 	Gen:    genCoffCase,
 	Check:  checkC08,
